@@ -1,4 +1,5 @@
 import MM.Props.Exhaustive
+import MM.Props.SearchTie
 #print axioms MM.Search.C03_sound
 #print axioms MM.Search.C03_complete
 #print axioms MM.Search.C03_nodup
@@ -6,3 +7,6 @@ import MM.Props.Exhaustive
 #print axioms MM.Search.C03_optimal
 #print axioms MM.Search.exhaustive_spec
 #print axioms MM.Search.designLt_strictWeak_on_nanFree
+#print axioms MM.Search.tie_share
+#print axioms MM.Search.tie_budget_screen
+#print axioms MM.Search.tie_volume
